@@ -44,7 +44,13 @@ class Prop:
         if op.split(" ", 1)[0] in ("json", "walk", "iter"):
             # whole-API operations: the model only knows the outcome class (their detailed oracles
             # live in the cross-cutting properties, C18 and C19)
-            return "noimg" if ans.startswith("noimg") else k
+            if ans.startswith("noimg"):
+                return "noimg"
+            if op.startswith("iter ") and k in ("ok", "err", "other"):
+                # the model only knows whether the view exists; an absent / unreadable directory
+                # (`err Null`, `none`) is an answer like any other, judged by the in-harness deque
+                return "answered"
+            return k
         if k == "panic":
             return "panic"
         if k in ("crash", "ub"):
